@@ -128,7 +128,7 @@ func c17YBuild(s c17YSpec) *c17YDoc {
 
 // c17YFault is one injected YAML fault.
 type c17YFault struct {
-	Kind string `json:"k"` // exact: flowclose mapvalue badchar nokey dupkey; weak: tab indent unclosed
+	Kind string `json:"k"` // exact: flowclose mapvalue badchar nokey dupkey; weak: tab indent unclosed; found while decoding: anchor tag
 	At   int    `json:"i"`
 	Var  int    `json:"v"`
 }
@@ -164,6 +164,20 @@ func c17YInject(d *c17YDoc, f c17YFault) (lines []string, li, col int, exact, ok
 			lines[e.line] = head + []string{"[1, 2", "{a: 1", "[x, [y]"}[f.Var%3]
 			return lines, e.line, e.valCol, false, true
 		}
+	case "anchor", "tag":
+		// faults the YAML reader finds only when it builds the value: an alias without its anchor, a scalar that its
+		// tag cannot decode. The reader may or may not know where they are (see the judge).
+		if f.At >= len(d.entries) || d.entries[f.At].typ != 'p' {
+			return nil, 0, 0, false, false
+		}
+		e := d.entries[f.At]
+		head := d.lines[e.line][:e.valCol]
+		if f.Kind == "anchor" {
+			lines[e.line] = head + []string{"*nosuch", "*a1", "*x"}[f.Var%3]
+		} else {
+			lines[e.line] = head + []string{"!!float x", "!!int 1x", "!!bool maybe", "!!null 7"}[f.Var%4]
+		}
+		return lines, e.line, e.valCol, false, true
 	case "nokey":
 		if f.At < 1 || f.At >= len(d.entries) {
 			return nil, 0, 0, false, false
@@ -277,6 +291,37 @@ var kC17Y = run.NewKind("c17.yaml", func(c *run.Ctx, t c17YCase) *run.Fail {
 		sig += ":ascii-before"
 	}
 	rep, why := c17ParseReport(string(res.Stderr), "invalid yaml: ")
+	if t.Fault.Kind == "anchor" || t.Fault.Kind == "tag" {
+		// The reader may report these without a position. Then the command must not invent one: either the report
+		// names the line of the fault, or it carries no line, no quoted text and no caret at all; in both cases it says
+		// what is wrong and the status is 5.
+		stderr := string(res.Stderr)
+		if res.Code != 5 || !strings.Contains(stderr, "gojq: invalid yaml: ") {
+			return &run.Fail{Sig: sig, Detail: fmt.Sprintf("%s\nexpected status 5 and an \"invalid yaml\" report; exit %d, stderr: %s", where, res.Code, run.Clip(stderr))}
+		}
+		if rep != nil {
+			if !rep.HasLine || rep.Line != docStart+li+1 {
+				return &run.Fail{Sig: sig, Detail: fmt.Sprintf("%s\nthe report points at line %d (has a line number: %v); the offending scalar is on line %d\nstderr: %s", where, rep.Line, rep.HasLine, docStart+li+1, run.Clip(c17Stderr(res.Stderr)))}
+			}
+			if strings.TrimSpace(rep.Msg) == "" {
+				return &run.Fail{Sig: sig, Detail: where + "\nthe report does not say what is wrong\nstderr: " + run.Clip(c17Stderr(res.Stderr))}
+			}
+			c.Count("yaml_semantic_reports_with_position", 1)
+		} else {
+			if strings.Contains(stderr, "^") && strings.Contains(stderr, " | ") {
+				return &run.Fail{Sig: sig, Detail: where + "\nmalformed position report: " + why + "\nstderr: " + run.Clip(c17Stderr(res.Stderr))}
+			}
+			_, msg, _ := strings.Cut(stderr, "gojq: invalid yaml: ")
+			if len(strings.TrimSpace(msg)) < 12 {
+				return &run.Fail{Sig: sig, Detail: where + "\nthe report does not say what is wrong\nstderr: " + run.Clip(c17Stderr(res.Stderr))}
+			}
+			c.Count("yaml_semantic_reports_without_position", 1)
+		}
+		key, _ := json.Marshal(t)
+		c.Nontrivial(string(key))
+		c.Count("yaml_fault_"+t.Fault.Kind, 1)
+		return nil
+	}
 	if rep == nil {
 		if !exact && res.Code == 0 {
 			c.Inconclusive("yaml-fault-accepted") // a weak fault the YAML grammar happens to accept
@@ -390,8 +435,8 @@ func c17BodyYAML(c *run.Ctx) {
 				}
 			}
 		}
-		for i := 0; i < c.N(3, 6); i++ {
-			kind := []string{"tab", "indent", "unclosed"}[i%3]
+		for i := 0; i < c.N(5, 10); i++ {
+			kind := []string{"tab", "indent", "unclosed", "anchor", "tag"}[i%5]
 			at := r.IntN(ne)
 			for j := 0; j < ne; j++ {
 				f := c17YFault{Kind: kind, At: (at + j) % ne, Var: r.IntN(1000)}
